@@ -53,6 +53,10 @@ structure ONode where
   started : Bool := false
   running : Bool := false
   n : NSt := { st := {} }
+  iv : Int := 0            -- the generator's heartbeat schedule for the node (0: none)
+  period : Int := 0        -- the period the code's refresh ticker was created with (constant: `Beat.step`)
+  lastFire : Int := 0      -- creation / last firing of the refresh ticker
+  failNext : Nat := 0      -- injected publish failures still to come
 
 structure OSt where
   kind : String := ""
@@ -118,9 +122,10 @@ def oStep (o : OSt) (op : List String) (exts : List (List String)) : OSt × Opti
       if n.started then (o, some "noop") else
       -- the public address is computed by `publicAddr` (outside the model): taken from the ext line
       match exts.find? (fun e => e.take 3 == ["node", i, "="]) with
-      | some [_, _, _, addr, _] =>
+      | some [_, _, _, addr, ival] =>
         let self : Node := { n.self with addr := dec addr }
-        let n' : ONode := { n with self := self, started := true, running := true, n := startN o.ttl self o.now }
+        let n' : ONode := { n with self := self, started := true, running := true, n := startN o.ttl self o.now,
+                                   period := ival.toInt?.getD 0, lastFire := o.now }
         let (o', s) := (o.setNode n').observeAll
         (o', some s)
       | _ => (o, some "no-ext")
@@ -129,13 +134,27 @@ def oStep (o : OSt) (op : List String) (exts : List (List String)) : OSt × Opti
     | none => (o, some "noop")
     | some n =>
       if !n.running then (o, some "noop") else
+      -- the ticker fires when its (unchanging) period has elapsed
+      if decide (0 < n.iv) && decide (o.now - n.lastFire < n.iv) then (o, some "pub=notdue") else
+      -- a failed publish delivers nothing and leaves the period alone (`publish_failure_does_not_change_period`)
+      if n.failNext > 0 then
+        (o.setNode { n with lastFire := o.now, failNext := n.failNext - 1 }, some s!"pub=failed per={n.period}")
+      else
       let m := regMsg n.self
-      ({ o with msgs := (lab, m) :: o.msgs }, some s!"pub={enc m}")
+      ({ (o.setNode { n with lastFire := o.now }) with msgs := (lab, m) :: o.msgs }, some s!"pub={enc m} per={n.period}")
+  | "pubfail" :: i :: rest =>
+    match o.node? i with
+    | none => (o, some "noop")
+    | some n =>
+      if !n.running then (o, some "noop") else
+      let k := match rest with | [] => 1 | k :: _ => k.toNat?.getD 0
+      (o.setNode { n with failNext := k }, some "ok")
   | ["stop", i, lab] =>
     match o.node? i with
     | none => (o, some "noop")
     | some n =>
       if !n.running then (o, some "noop") else
+      if n.failNext > 0 then (o.setNode { n with running := false, failNext := n.failNext - 1 }, some "pub=failed") else
       let m := unregMsg n.self
       ({ (o.setNode { n with running := false }) with msgs := (lab, m) :: o.msgs }, some s!"pub={enc m}")
   | ["crash", i] =>
@@ -166,7 +185,8 @@ def headerNodes (args : List String) : List (Nat × Bytes) :=
 def oInit (args : List String) : OSt :=
   { kind := (kv args "kind").getD "",
     ttl := ((kv args "ttl").getD "0").toInt?.getD 0,
-    nodes := (headerNodes args).map fun (i, id) => { idx := i, self := ⟨id, []⟩ } }
+    nodes := (headerNodes args).map fun (i, id) =>
+      { idx := i, self := ⟨id, []⟩, iv := ((kv args s!"iv{i}").getD "0").toInt?.getD 0 } }
 
 /-! ## monitor side -/
 
@@ -180,6 +200,11 @@ structure MNode where
   stopT : Int := 0
   pubs : List Int := []        -- publish instants, most recent first
   handledT : Option Int := none   -- instant of the most recent message handed to this node's listen
+  iv : Int := 0                -- the heartbeat schedule the ticks of this node follow (header)
+  period : Int := 0            -- the period the code gave its refresh ticker at the start (ext)
+  lastFire : Int := 0          -- start, or the last tick the schedule called for
+  base : Int := 0              -- start, or the node's last failed publish: it must publish every <= gap from here on
+  hadFail : Bool := false
 
 structure MMsg where
   label : String
@@ -202,14 +227,16 @@ structure MSt where
 
 def hasComma (b : Bytes) : Bool := b.contains comma
 
-/-- the node re-registered at least every `gap` from its start up to `t` -/
+/-- from `base` (its start, or its last failed publish) up to `t` the node was due to re-register at
+least every `gap`: `pubs` are the instants at which its heartbeat called for a publish that was not
+made to fail -/
 def MNode.gapOK (n : MNode) (gap t : Int) : Bool :=
   let rec go : Int → List Int → Bool
     | _, [] => true
     | later, p :: ps => decide (later - p ≤ gap) && go p ps
-  match n.pubs with
-  | [] => decide (t - n.startT ≤ gap)
-  | p :: ps => decide (t - p ≤ gap) && go p ps && decide ((ps.getLast?.getD p) - n.startT ≤ gap)
+  match n.pubs.filter (fun p => decide (n.base < p)) with
+  | [] => decide (t - n.base ≤ gap)
+  | p :: ps => decide (t - p ≤ gap) && go p ps && decide ((ps.getLast?.getD p) - n.base ≤ gap)
 
 /-- nothing published since `r` subscribed, and more than `d` ago, is missing at `r` -/
 def MSt.fairOK (m : MSt) (r : MNode) : Bool :=
@@ -236,10 +263,10 @@ def MSt.checkList (m : MSt) (r : MNode) (obs : List String) : List Fail :=
   let fair := m.fairOK r
   -- live_persists / self_persists
   let liveFails := running.filterMap fun k =>
-    if fair && k.gapOK m.gap t && (k.idx == r.idx || (decide (k.startT + m.gap + m.d < t) && decide (r.startT + m.gap + m.d < t))) then
+    if fair && k.gapOK m.gap t && ((k.idx == r.idx && !k.hadFail) || (decide (k.base + m.gap + m.d < t) && decide (r.startT + m.gap + m.d < t))) then
       if obs.contains (enc k.addr) then none else
-        some { prop := "C18", sig := if hasComma k.addr then "C18:membership:comma-in-address" else "C18:live-missing",
-               what := s!"node {r.idx} does not list live node {k.idx} ({enc k.addr}) at t={t}: it refreshes on time and every message arrived within d" : Fail }
+        some { prop := "C18", sig := if k.hadFail then "C18:live-missing:after-publish-failures" else "C18:live-missing",
+               what := s!"node {r.idx} does not list live node {k.idx} ({enc k.addr}) at t={t}: its heartbeat has been due every <= refresh+jitter since {k.base} (start / last failed publish) and every message arrived within d" : Fail }
     else none
   -- converges
   let convFails :=
@@ -296,7 +323,7 @@ def MSt.updNode (m : MSt) (i : Nat) (f : MNode → MNode) : MSt :=
 
 def obsIsPub (obs : Option String) : Bool :=
   match obs with
-  | some o => o.startsWith "pub=" && o != "pub=none" && o != "pub=stuck"
+  | some o => o.startsWith "pub=" && o != "pub=none" && o != "pub=stuck" && o != "pub=notdue" && !o.startsWith "pub=failed"
   | none => false
 
 def mStep (m : MSt) (op : List String) (exts : List (List String)) (obs : Option String) : MSt × List Fail :=
@@ -323,7 +350,8 @@ def mStep (m : MSt) (op : List String) (exts : List (List String)) (obs : Option
       let already := (m.nodes.find? (·.idx == idx)).map (·.started) == some true
       if already then (m, []) else
       let iv := ival.toInt?.getD 0
-      let m := m.updNode idx fun n => { n with addr := dec addr, started := true, running := true, startT := m.now }
+      let m := m.updNode idx fun n => { n with addr := dec addr, started := true, running := true, startT := m.now,
+                                                period := iv, lastFire := m.now, base := m.now }
       let m := { m with lastChange := m.now }
       let f : List Fail :=
         if decide (m.refresh ≤ iv) && decide (iv < m.refresh + m.jit) then [] else
@@ -334,10 +362,32 @@ def mStep (m : MSt) (op : List String) (exts : List (List String)) (obs : Option
   | ["tick", i, lab] =>
     match i.toNat? with
     | some idx =>
-      if obsIsPub obs then
-        let m := m.updNode idx fun n => { n with pubs := m.now :: n.pubs }
-        ({ m with msgs := { label := lab, sent := m.now } :: m.msgs }, [])
-      else (m, [])
+      match m.nodes.find? (fun n => n.idx == idx && n.running) with
+      | none => (m, [])
+      | some k =>
+        let toks := (obs.getD "").splitOn " "
+        let pub := (kv toks "pub").getD ""
+        -- the period the code's ticker has now must be the one it started with
+        let perFail : List Fail := match (kv toks "per").bind String.toInt? with
+          | some p => if p == k.period then [] else
+              [{ prop := "C18", sig := "C18:heartbeat-period-changed",
+                 what := s!"node {idx}: refresh ticker period is {p} ns after the publish at t={m.now} ({pub.take 6}), it was {k.period} ns" }]
+          | none => []
+        let onSchedule := decide (k.iv ≤ 0) || decide (k.iv ≤ m.now - k.lastFire)
+        if obsIsPub obs then
+          let m := m.updNode idx fun n => { n with pubs := m.now :: n.pubs, lastFire := m.now }
+          ({ m with msgs := { label := lab, sent := m.now } :: m.msgs }, perFail)
+        else if pub == "failed" then
+          -- an injected failure: the node's obligation to publish every <= gap restarts here
+          let m := m.updNode idx fun n => { n with lastFire := m.now, base := m.now, hadFail := true }
+          ({ m with lastChange := m.now }, perFail)
+        else if pub == "notdue" && onSchedule then
+          -- a full configured period has elapsed since the last tick and the node's ticker is not due:
+          -- the gap between its publishes exceeds refresh + jitter
+          let m := m.updNode idx fun n => { n with pubs := m.now :: n.pubs, lastFire := m.now }
+          (m, [{ prop := "C18", sig := "C18:heartbeat-period-changed",
+                 what := s!"node {idx}: no publish at t={m.now} although {m.now - k.lastFire} ns (>= its heartbeat period {k.iv}) have passed since the previous tick" }])
+        else (m, [])
     | none => (m, [])
   | ["stop", i, lab] =>
     match i.toNat? with
@@ -380,7 +430,7 @@ def mInit (args : List String) : MSt :=
   let num (k : String) : Int := ((kv args k).getD "0").toInt?.getD 0
   let ids := headerNodes args
   { ttl := num "ttl", refresh := num "refresh", jit := num "jit", gap := num "refresh" + num "jit", d := num "d",
-    nodes := ids.map fun (i, id) => { idx := i, id := id },
+    nodes := ids.map fun (i, id) => { idx := i, id := id, iv := num s!"iv{i}" },
     idsUnique := (ids.map (·.2)).eraseDups.length == ids.length && ids.all fun p => !hasComma p.2 }
 
 /-- report each signature once per case (the first observation that shows it) -/
